@@ -98,6 +98,43 @@ def r2_copy_completeness(R) -> None:
             R.check(ok, q, 'ctor-arg:' + text(a)[:50], 'constructor arguments of the copy are deep copies',
                     f'`{text(a)[:60]}` is passed to the new object by reference', where=f.where(new))
         ups = [n for n in f.cfg.nodes if n.kind == 'stmt' and n.ast is not None and any(method_call(x, 'update') and text(x.func.value) == f'{obj}.__dict__' for x in ast.walk(n.ast))]
+        # loop form: for k, v in self.__dict__.items(): copied.__dict__[k] = copy.deepcopy(v)
+        loop_stores = [n for n in f.cfg.nodes if n.kind == 'stmt' and isinstance(n.ast, ast.Assign) and isinstance(n.ast.targets[0], ast.Subscript)
+                       and text(n.ast.targets[0].value) == f'{obj}.__dict__' and n.loops]
+        if not ups and loop_stores:
+            for n in loop_stores:
+                lp = f.cfg.nodes[n.loops[-1]]
+                kv = [x.id for x in ast.walk(lp.ast.target) if isinstance(x, ast.Name)]
+                okl = text(lp.ast.iter) == 'self.__dict__.items()' and len(kv) == 2 and text(n.ast.targets[0].slice) == kv[0] \
+                    and is_call(n.ast.value, 'copy.deepcopy') and text(n.ast.value.args[0]) == kv[1]
+                R.check(okl, q, 'deepcopy-all:' + text(n.ast)[:70], 'every entry of __dict__ is deep-copied into the copy',
+                        f'`{text(n.ast)[:80]}` does not deep-copy the entry (a shallow `.copy()` shares the elements of object arrays such as per-period Trace objects)',
+                        where=f.where(n))
+            # exclusions in the loop: exact key tests only, and every excluded key handed to the constructor
+            passed = {k.arg for k in ctor.keywords if k.arg}
+            for t in f.tests():
+                if not t.loops or 'k' not in {x.id for x in ast.walk(t.ast) if isinstance(x, ast.Name)}:
+                    continue
+                tt = t.ast
+                keys = None
+                if isinstance(tt, ast.Compare) and len(tt.ops) == 1:
+                    c0 = tt.comparators[0]
+                    if isinstance(tt.ops[0], (ast.In, ast.NotIn)) and isinstance(c0, (ast.List, ast.Tuple, ast.Set)):
+                        keys = [e.value for e in c0.elts if isinstance(e, ast.Constant)]
+                    elif isinstance(tt.ops[0], (ast.Eq, ast.NotEq)) and isinstance(c0, ast.Constant):
+                        keys = [c0.value]
+                    elif isinstance(tt.ops[0], (ast.In, ast.NotIn)) and isinstance(c0, ast.Constant) and isinstance(c0.value, str):
+                        R.violation(q, 'excluded-key-substring:' + text(tt), f'`{text(tt)}` tests membership in a *string* (a substring test): every attribute whose name is '
+                                    f'a substring of {c0.value!r} is silently left out of the copy', where=f.where(t))
+                        continue
+                if keys is None:
+                    raise Unsupported(f'{q}: key test `{text(tt)}` in the copy loop not modelled')
+                for e in keys:
+                    R.check(e in passed, q, f'excluded-key:{e}', f'the excluded entry `{e}` is handed to the constructor (deep-copied)',
+                            f'`{e}` is excluded from the deep copy of __dict__ and not passed to the constructor', where=f.where(t))
+            rets = f.returns()
+            R.check(len(rets) == 1 and text(rets[0].ast.value) == obj, q, 'returns-copy', 'the populated copy is returned', 'copy() does not return the new object', where=f.fi.where)
+            continue
         if not R.require(q, len(ups), f'{obj}.__dict__.update({{k: copy.deepcopy(v) ...}})', fi=f.fi, pred=lambda x: method_call(x, 'update')):
             continue
         up = [x for x in ast.walk(ups[0].ast) if method_call(x, 'update')][0]
@@ -271,6 +308,29 @@ def r4_mutable_defaults(R, extra_nodes: Optional[List[ast.AST]] = None) -> None:
     R.ok('fsic/*', f'no mutable default argument in {n} functions')
 
 
+def r5b_no_memoised_mutables(R) -> None:
+    """A memoised function hands the *same* object to every caller: it must not return a mutable container."""
+    n = 0
+    for fi in R.repo.all_functions():
+        decs = [text(d) for d in fi.node.decorator_list]
+        if not any(d.split('(')[0].split('.')[-1] in ('lru_cache', 'cache', 'cached_property') for d in decs):
+            continue
+        n += 1
+        for r in ast.walk(fi.node):
+            if isinstance(r, ast.Return) and r.value is not None:
+                v = r.value
+                mutable = isinstance(v, (ast.Dict, ast.List, ast.Set, ast.DictComp, ast.ListComp, ast.SetComp)) or is_call(v, 'dict', 'list', 'set')
+                if isinstance(v, ast.Name):
+                    for a in ast.walk(fi.node):
+                        if isinstance(a, ast.Assign) and any(isinstance(t, ast.Name) and t.id == v.id for t in a.targets) and \
+                                (isinstance(a.value, (ast.Dict, ast.List, ast.Set, ast.DictComp, ast.ListComp, ast.SetComp)) or is_call(a.value, 'dict', 'list', 'set', 'copy.deepcopy')):
+                            mutable = True
+                R.check(not mutable, fi.qualname, 'memoised-mutable:' + text(v)[:40], 'memoised functions return immutable values',
+                        f'`{fi.name}` is memoised ({", ".join(decs)}) and returns the mutable object `{text(v)[:40]}`: every caller (every instance) receives the same object',
+                        where=fi.where)
+    R.ok('fsic/*', f'{n} memoised function(s) in the package; none returns a mutable container')
+
+
 def r5_globals_never_written(R) -> None:
     consts = all_mutable_const_names(R)
     total = 0
@@ -335,7 +395,7 @@ def run(R) -> None:
     R.rule('C11.R2', lambda: r2_copy_completeness(R))
     R.rule('C11.R3', lambda: r3_class_constants(R))
     R.rule('C11.R4', lambda: r4_mutable_defaults(R))
-    R.rule('C11.R5', lambda: r5_globals_never_written(R))
+    R.rule('C11.R5', lambda: (r5_globals_never_written(R), r5b_no_memoised_mutables(R)))
 
 
 def run_thorough(R) -> None:
